@@ -18,10 +18,7 @@ theorem relw_init : RelW (Loc.init 0) St.init Spec.Env.init :=
   ⟨fun _ => rfl, rfl, rfl, fun _ _ => by simp [Loc.init, Spec.Env.init, lookup, OptRel]⟩
 
 theorem main_funrel (t : Tmpl) (hg : GoodTop t = true) :
-    FunRel ⟨[], ⟨refsLoop t, false, false⟩, codegen t⟩ ⟨[], noFlags, t, .main, 0⟩ := by
-  simp only [GoodTop, Bool.and_eq_true] at hg
-  have := FunRel.def_ (mainScope t) [] noFlags t (refsLoop t) false 0 .main (.inr ⟨rfl, rfl, rfl⟩) rfl hg.2 hg.1
-  simpa [codegen, renderCallable, mainScope, noFlags] using this
+    FunRel ⟨[], ⟨refsLoop t, false, false⟩, codegen t⟩ ⟨[], noFlags, t, .main, 0⟩ := body_funrel t 0 hg
 
 /-- `render_body` of template 0, from the initial state -/
 theorem body_refines (ts : List (Tmpl × Option Bool)) (k : Nat) (t : Tmpl) (ieh : Option Bool)
@@ -34,7 +31,7 @@ theorem body_refines (ts : List (Tmpl × Option Bool)) (k : Nat) (t : Tmpl) (ieh
     simpa [runBody, progOf, codegenModule] using he
   obtain ⟨out, hb, p, ev⟩ := (rc_all ((t, ieh) :: ts) k hG fuel).invoke _ ⟨[], noFlags, t, .main, 0⟩ [] [] (Loc.init 0)
     St.init Spec.Env.init [] 0 [] [] r σ' (main_funrel t (hG (t, ieh) List.mem_cons_self)) rfl (fun h => by cases h)
-    relw_init NSRel.nil (loc_init_ok 0) NSOK_nil init_ok rfl he' hr
+    (fun h => by cases h) relw_init NSRel.nil (loc_init_ok 0) NSOK_nil init_ok rfl he' hr
   refine ⟨out, by simpa using hb, p.1, p.2.2, p.2.1, ?_⟩
   obtain ⟨m0, e0⟩ := ev
   exact ⟨m0, fun m hm => by simpa [Spec.renderBody, St.init] using e0 m hm⟩
@@ -173,6 +170,6 @@ theorem invoke_def_refines (ts : List (Tmpl × Option Bool)) (k : Nat) (hG : Goo
     have := FunRel.def_ (defScope body) ps fl body own false mod .def_ (.inl ⟨rfl, rfl⟩) hc hnd hg
     simpa [renderCallable, defScope, defSF] using this
   exact (rc_all ts k hG n).invoke _ (defSF ps fl body mod) [] vs l σ E pend i top rest r σ' hfr rfl
-    (fun h => by simp [defSF] at h) hR hN hl hlex hσ hb he hr
+    (fun h => by simp [defSF] at h) (fun h => by simp [defSF] at h) hR hN hl hlex hσ hb he hr
 
 end MakoModel.Codegen.Calls
